@@ -88,7 +88,7 @@ CSR_DWS = (1, 2, 3, 4, 5, 8, 8, 13, 16)
 
 
 @st.composite
-def csr_layout(draw, max_regs=6, dws=CSR_DWS, overlaps=True, high=None):
+def csr_layout(draw, max_regs=6, dws=CSR_DWS, overlaps=True, high=None, huge=False):
     if draw(st.integers(0, 4)) == 0:
         # "packed odd" family: registers of 2,3,5,6,7 words placed back to back without natural
         # alignment, so that shadow chunks wrap around onto neighbouring registers (nested aliasing)
@@ -108,6 +108,8 @@ def csr_layout(draw, max_regs=6, dws=CSR_DWS, overlaps=True, high=None):
         # starting exactly at a power of two
         dw = draw(st.sampled_from([1, 2, 4, 8] if dws is CSR_DWS else list(dws)))
         k = draw(st.integers(1, 5))
+        if huge and draw(st.integers(0, 1)) == 0:
+            k = draw(st.sampled_from([13, 31, 33, 40]))        # aliases that only a very high address bit separates
         slots = sorted(draw(st.lists(st.sampled_from([0, 1, 2, 3, 4, 5, 8, 16, 32]), min_size=2, max_size=max(2, min(max_regs, 5)), unique=True)))
         regs, cursor = [], 0
         for p_ in slots:
